@@ -32,7 +32,7 @@ CLAIMED = {
          "Panics are injected in-process under catch_unwind; lock state is read through the cfg-guarded locks_free() hook and the context's public mutex.",
          "DESIGN.md §4 C15"),
  "C16": ("stateful property testing: generated histories of exec / parse-only / parse-once-exec-many / re-registration steps dispatched to persistent worker threads and concurrent bursts; every occurrence must reproduce the solo outcome; depth sweeps",
-         "Exploration: ~30k histories (6-30 steps, 1-4 threads) over pools of programs that share names; outcomes (result and final context) compared with the reference evaluator's solo outcome, parse results with the reference parser under the last registration; parse-only steps must neither hold a lock nor invoke a registered handler; 1/64 of cases cross-check the solo outcome in a fresh process.",
+         "Exploration: ~30k histories (6-30 steps, 1-4 threads) over pools of programs that share names; outcomes (result and final context) compared with the reference evaluator's solo outcome, parse results with the reference parser under the last registration; parse-only steps must neither hold a lock nor invoke a registered handler; one history in eight first registers, as an operator, a fresh word that earlier programs used as a plain name; 1/64 of cases cross-check the solo outcome in a fresh process.",
          "Concurrent bursts sample free-running interleavings; the harness's own registrations are modelled.",
          "DESIGN.md §4 C16"),
  "C05": ("property-based testing with an exhaustive component: all token sequences up to length 5 (quick) / 6 (thorough) over a 23-symbol alphabet, plus generated corruptions of valid programs, against a lenient nondeterministic reference recogniser (one-directional oracle)",
@@ -49,7 +49,7 @@ CLAIMED = {
          "DESIGN.md §4 C02"),
 
  "C08": ("stateful property testing: generated histories of register_* / parse / exec steps, one fresh child process per history over 1-2 persistent threads, against a model registry, the reference parser parameterised by it and a reference evaluator with id-echoing handlers; exhaustive adjacent-precedence table",
-         "Exploration: ~4k histories (fresh and built-in names, re-registrations, overrides before first use, precedences incl. adjacent values up to 10^9, context shadowing, cross-thread re-registration) plus the exhaustive table of a new operator at q-1, q, q+1 around each built-in level; every parse and every evaluation must match the model.",
+         "Exploration: ~4k histories (fresh and built-in names, re-registrations, overrides before first use, precedences incl. adjacent values up to 10^9, context shadowing, cross-thread re-registration, bursts of 2-6 concurrent registrations of different names) plus the exhaustive table of a new operator at q-1, q, q+1 around each built-in level; every parse and every evaluation must match the model.",
          "An operator registered on an existing level takes that level's associativity; postfix spellings are kept disjoint from prefix/infix ones (both undocumented otherwise).",
          "DESIGN.md §4 C08"),
  "C13": ("schedule-directed and free-running concurrency testing in fresh child processes: held initialisation through the init probe, barrier races of first calls, re-registration vs evaluation (directed handshake and free-running), against the set of sequentially possible results and a final-state battery",
@@ -57,7 +57,7 @@ CLAIMED = {
          "Needs the cfg-guarded init probe; deadlock = 10 s watchdog reproduced; the listed known finding (torn registration) is tolerated by exact signature only.",
          "DESIGN.md §4 C13"),
  "C14": ("exhaustive matrix plus generated chains in fresh child processes: every handler kind x every re-entrant action, each handler probing all engine locks with try_lock before acting, under a watchdog",
-         "Exploration, exhaustive over the stated matrix: 15 handler kinds x 16 re-entrant actions (incl. re-registering the running handlers and registering an operator used later in the running program), all ordered kind pairs x 5 actions, and ~40000 generated chains of 2-4 handlers; every handler finds all registries and the evaluating context unlocked, the action completes and the outer evaluation returns the hand-computed value.",
+         "Exploration, exhaustive over the stated matrix: 15 handler kinds x 16 re-entrant actions (incl. re-registering the running handlers and registering an operator used later in the running program), all ordered kind pairs x 5 actions, 8 x 8 shared-handle scenarios (a second evaluation on the same context handle while a context function holds its guard and re-enters the engine) and ~40000 generated chains of 2-4 handlers; every handler finds all registries and the evaluating context unlocked, the action completes and the outer evaluation returns the hand-computed value.",
          "Lock state through the cfg-guarded locks_free() hook and the context's public mutex; single-threaded evaluations, so a held lock is attributable to the engine.",
          "DESIGN.md §4 C14"),
  "C18": ("stateful property testing: generated descriptor-registration histories in fresh child processes over 1-3 persistent threads; describe() of every AST after every step on every thread against a model registry of marker descriptors; exhaustive single-registration table",
